@@ -166,8 +166,8 @@ type Script struct {
 	AuthErr     []Decision   `json:"auth_err,omitempty"` // decision of Auth(mech) itself
 	SASL        []SASLScript `json:"sasl,omitempty"`
 	LogoutErr   bool         `json:"logout_err,omitempty"`
-	// GateCalls parks the named callbacks ("NewSession", "Mail", "Rcpt") on a
-	// harness gate "<name><ordinal>" after their begin event.
+	// GateCalls parks the named callbacks ("NewSession", "Mail", "Rcpt",
+	// "Logout") on a harness gate "<name><ordinal>" after their begin event.
 	GateCalls []string `json:"gate_calls,omitempty"`
 	// GateStart parks the library's BDAT delivery goroutine on a harness gate
 	// ("start<n>") before it calls the backend (needs the verif hook).
@@ -267,6 +267,7 @@ type Backend struct {
 	events   []Event
 	nSess    int
 	nNew     int
+	nLogout  int
 	nMail    int
 	nRcpt    int
 	nData    int
@@ -529,6 +530,13 @@ func (s *session) Reset() {
 
 func (s *session) Logout() error {
 	s.b.record(Event{Sess: s.id, CB: "Logout", Begin: true})
+	if s.b.gated("Logout") {
+		s.b.hub.mu.Lock()
+		ord := s.b.nLogout
+		s.b.nLogout++
+		s.b.hub.mu.Unlock()
+		s.b.waitGate(fmt.Sprintf("Logout%d", ord))
+	}
 	var err error
 	if s.b.script.LogoutErr {
 		err = errors.New("logout failed")
